@@ -1124,7 +1124,9 @@ func (c *compiler) doOptimize(in []instruction) []instruction {
 		case n < len(in)-1 && in[n].Code == codePush && in[n+1].Code == codeAdd:
 			out = append(out, instruction{Pos: in[n+1].Pos, Code: codeIncDec, A: in[n].A})
 			n += 1
-		case n < len(in)-1 && in[n].Code == codePush && in[n+1].Code == codeSub:
+		case n < len(in)-1 && in[n].Code == codePush && in[n+1].Code == codeSub && in[n].A != 0:
+			// x - c is x + (-c) for every constant but 0: the integer 0 has no negative,
+			// and -0.0 - 0 is -0.0 where -0.0 + 0 is +0.0, so x - 0 stays a subtraction
 			out = append(out, instruction{Pos: in[n+1].Pos, Code: codeIncDec, A: -in[n].A})
 			n += 1
 
